@@ -130,8 +130,9 @@ package file
 
 //@ func ValidateODSQ4Size
 //@   property C07
-//@   trusted
-//@   effect $Complete := err == nil
+//@   requires !$FdOpen
+//@   havoc $Complete $FdOpen
+//@   ensures $Complete <==> err == nil
 
 // The validators accept a file only when its size is exactly the size a complete file has.
 //@ pure func statSize(i fs.FileInfo) int
@@ -156,8 +157,9 @@ package file
 
 //@ func validateQ4Size
 //@   property C07
-//@   noframe
 //@   requires !$FdOpen
+//@   havoc $FdOpen
+//@   effect $Complete := $Complete && err == nil
 //@   ensures !$FdOpen
 //@   checks err == nil ==> statSize(info) == expectedSize && expectedSize == shareSize * odsSize * odsSize
 //@ extern os.Open
